@@ -42,6 +42,8 @@ func c14PathSets() []getReq {
 		{Label: "unknown-path", Paths: []Path{P("nosuch")}, WantErr: true},
 		{Label: "unknown-child", Paths: []Path{P("sys", "nosuch")}, WantErr: true},
 		{Label: "known+unknown", Paths: []Path{P("sys"), P("nosuch")}, WantErr: true},
+		{Label: "unknown+known", Paths: []Path{P("nosuch"), P("sys")}, WantErr: true},
+		{Label: "known+unknown-child+known", Paths: []Path{P("if", e1), P("sys", "nosuch"), P("sys", "hostname")}, WantErr: true},
 	}
 }
 
